@@ -445,6 +445,58 @@ theorem C01_remove_adjust_preserve (sid : Nat) (i : AdjIn) (p : Bool) (v : Int) 
     · simp at hx; subst hx; simp [LCall.op?] at hop; subst hop; rfl
     · simp at hx
 
+/-- The cell operations of `adjust_server_state` and `set_server_valid_until` are unguarded. -/
+theorem plain_adjust_vu (sid : Nat) (i : AdjIn) (p : Bool) (v : Int) :
+    ∀ op ∈ cellOps (adjustCalls sid i ++ validUntilCalls sid p v), plainOp op = true := by
+  intro op hop
+  simp only [cellOps, List.mem_filterMap] at hop
+  obtain ⟨x, hx, hop⟩ := hop
+  simp only [List.mem_append] at hx
+  rcases hx with hx | hx
+  · have hs := adjustCalls_noAdd sid i x hx
+    cases x with
+    | cell o =>
+      simp [LCall.op?] at hop; subst hop
+      have hsv := (C08_adjust_ops sid i).2.2.2 _ hx
+      cases o <;> simp_all [plainOp, LCall.isAddServer, LCall.server?]
+    | _ => simp [LCall.op?] at hop
+  · unfold validUntilCalls at hx
+    split at hx
+    · simp at hx; subst hx; simp [LCall.op?] at hop; subst hop; rfl
+    · simp at hx
+
+theorem cellOps_append (a b : List LCall) : cellOps (a ++ b) = cellOps a ++ cellOps b := by
+  simp [cellOps, List.filterMap_append]
+
+/-- **C01 (loading a server keeps the capacity invariant).**  If the record's declared capacity is non-negative
+    and no instance of the cell claims to be on the server (the guard of `addServer`; after `remove_server`'s
+    `remove_all` none does), the calls `load_server` derives from the record take a cell satisfying `InvCap`
+    to one satisfying it: the first call is the guarded `addServer`, every later one is unguarded. -/
+theorem C01_load_server_preserve (sid : Nat) (i : LoadIn) (c c' : Cell) (hc : InvCap c)
+    (hcap : ∀ r, i.srec = some r → (vecOf r.attrs.cap).nonneg)
+    (hfree : ∀ a ∈ c.apps, a.server ≠ some sid)
+    (h : runOps c (cellOps (loadCalls sid i)) = .ok c') : InvCap c' := by
+  refine invCap_runOps _ c c' hc ?_ h
+  cases hr : i.srec with
+  | none => simp [loadCalls, hr, cellOps, GuardsHold]
+  | some r =>
+    cases hp : r.parentLoaded with
+    | false => simp [loadCalls, hr, hp, cellOps, GuardsHold]
+    | true =>
+      rw [((C01_C03_load_server_ops sid i).1 r hr hp).1]
+      have hsplit : ∀ (x : LCall) (l : List LCall) (o : Op), x.op? = some o → cellOps (x :: l) = o :: cellOps l := by
+        intro x l o hx; simp [cellOps, hx]
+      rw [hsplit _ _ _ rfl]
+      refine ⟨⟨hcap r hr, hfree⟩, fun c1 _ => guards_of_plain _ c1 ?_⟩
+      intro op hop
+      rw [List.append_assoc, cellOps_append] at hop
+      simp only [List.mem_append] at hop
+      rcases hop with hop | hop
+      · split at hop
+        · simp [cellOps] at hop
+        · simp [cellOps, LCall.op?] at hop
+      · exact plain_adjust_vu sid _ i.present i.validUntil op hop
+
 /-! ### Non-vacuity -/
 
 def demoLoad : LoadIn :=
@@ -455,6 +507,8 @@ example : loadCalls 1 demoLoad =
     [.cell (.addServer 1 1002 ⟨8192, 400, 16384⟩ 0 2 0), .write (.mkNode 1),
      .cell (.setState 1 .down 1000), .cell (.setState 1 .up 1000), .write (.putState 1 (some (.up, 1000))),
      .cell (.setValidUntil 1 86399)] := by decide
+example : (∀ r, demoLoad.srec = some r → (vecOf r.attrs.cap).nonneg) := by
+  intro r hr; simp [demoLoad] at hr; subst hr; simp [vecOf, Vec.nonneg]
 example : loadCalls 1 { demoLoad with srec := none } = [] ∧
     loadCalls 1 { demoLoad with srec := some { attrs := ⟨(1, 1, 1), 0, 0, 0⟩, parentLoaded := false } } = [] := by
   decide
